@@ -79,11 +79,22 @@ def run_scenarios(res, scen_list, monitor, spec_dir=SEM, tag="", timeout=1500, s
         for d, trs in cnt.items():
             res.known[d] = res.known.get(d, 0) + len(trs)
         seen = set()
+        bad = {tr for tr, _, _ in rej2}
+        excerpt = {}
+        if bad:      # keep the recorded events of the rejected traces with the violation (the scratch trace file is removed afterwards)
+            for ln in open(tp):
+                try:
+                    e = json.loads(ln)
+                except ValueError:
+                    continue
+                t = e.get("tr")
+                if t in bad and len(excerpt.setdefault(t, [])) < 400:
+                    excerpt[t].append(ln.strip()[:3000])
         for tr, line, code in rej2:
             if tr in seen:
                 continue
             seen.add(tr)
-            res.violation("%s at trace line %d (%s)" % (code, line, monitor), dict(scen.get(tr, {}), family=tag))
+            res.violation("%s at trace line %d (%s)" % (code, line, monitor), dict(scen.get(tr, {}), family=tag, trace_excerpt=excerpt.get(tr, [])))
     n = len(scen_list) - len(inc)
     res.cov["traces_validated_against_impl"] += n
     res.cov["evaluations"] += len(scen_list)
